@@ -25,7 +25,7 @@ func (e *kvElection) heartbeatLoop(ctx context.Context) {
 	for {
 		select {
 		case <-ctx.Done():
-			e.handleHeartbeatContextDone()
+			e.handleHeartbeatContextDone(ctx)
 			return
 		case <-ticker.C:
 			// ctx is the context of the term this loop was started for: a tick
@@ -42,6 +42,12 @@ func (e *kvElection) heartbeatLoop(ctx context.Context) {
 				healthCtx, cancel := context.WithTimeout(ctx, 100*time.Millisecond)
 				healthy := e.cfg.HealthChecker.Check(healthCtx)
 				cancel()
+				// A check that outlasted the term (a checker that ignores its
+				// context) says nothing about a later term of this instance: its
+				// result must not be counted there.
+				if ctx.Err() != nil {
+					continue
+				}
 				if !healthy {
 					failureCount := e.healthFailureCount.Add(1)
 					log := e.getLogger()
@@ -52,7 +58,7 @@ func (e *kvElection) heartbeatLoop(ctx context.Context) {
 						)...,
 					)
 					if failureCount >= int32(maxHealthFailures) {
-						e.handleHealthCheckFailure()
+						e.handleHealthCheckFailure(ctx)
 						return
 					}
 					continue
@@ -100,7 +106,7 @@ func (e *kvElection) heartbeatLoop(ctx context.Context) {
 				)
 				e.recordFailure("marshal_error")
 				if consecutiveFailures >= maxFailures {
-					e.handleHeartbeatFailure(err)
+					e.handleHeartbeatFailure(ctx, err)
 					return
 				}
 				continue
@@ -130,7 +136,7 @@ func (e *kvElection) heartbeatLoop(ctx context.Context) {
 			var updateErr error
 			select {
 			case <-ctx.Done():
-				e.handleHeartbeatContextDone()
+				e.handleHeartbeatContextDone(ctx)
 				return
 			case <-time.After(updateTimeout):
 				updateErr = NewTimeoutError("heartbeat update", updateTimeout, nil)
@@ -161,7 +167,7 @@ func (e *kvElection) heartbeatLoop(ctx context.Context) {
 						)...,
 					)
 					e.recordFailure(errorType)
-					e.handleHeartbeatFailure(updateErr)
+					e.handleHeartbeatFailure(ctx, updateErr)
 					// A revision mismatch may be a priority takeover: say who took
 					// over. The lookup reads the store, so it runs after the demotion
 					// and outside this loop - a store that hangs on the read must not
@@ -187,7 +193,7 @@ func (e *kvElection) heartbeatLoop(ctx context.Context) {
 				)
 				e.recordFailure(errorType)
 				if consecutiveFailures >= maxFailures {
-					e.handleHeartbeatFailure(updateErr)
+					e.handleHeartbeatFailure(ctx, updateErr)
 					return
 				}
 				continue
@@ -221,9 +227,10 @@ func (e *kvElection) heartbeatLoop(ctx context.Context) {
 // this does nothing. If instead the context given to Start was cancelled, nobody
 // refreshes the record any more: the instance must not go on reporting
 // leadership of a record that is about to expire, so it steps down (with
-// OnDemote) like for any other loss of leadership.
-func (e *kvElection) handleHeartbeatContextDone() {
-	e.demote("context_cancelled")
+// OnDemote) like for any other loss of leadership. ctx is the loop's context, that
+// of its term: a loop that outlived its term leaves a later term alone.
+func (e *kvElection) handleHeartbeatContextDone(ctx context.Context) {
+	e.demoteTerm(ctx, "context_cancelled")
 }
 
 // logTakeover reads the current record and logs its owner if it is another instance.
@@ -250,7 +257,7 @@ func (e *kvElection) logTakeover(ctx context.Context) {
 	}
 }
 
-func (e *kvElection) handleHeartbeatFailure(err error) {
+func (e *kvElection) handleHeartbeatFailure(ctx context.Context, err error) {
 	log := e.getLogger()
 	log.Error("demoting_due_to_heartbeat_failure",
 		append(e.logWithContext(e.ctx),
@@ -259,10 +266,10 @@ func (e *kvElection) handleHeartbeatFailure(err error) {
 		)...,
 	)
 
-	e.demote("heartbeat_failure")
+	e.demoteTerm(ctx, "heartbeat_failure")
 }
 
-func (e *kvElection) handleHealthCheckFailure() {
+func (e *kvElection) handleHealthCheckFailure(ctx context.Context) {
 	log := e.getLogger()
 	failureCount := e.healthFailureCount.Load()
 	log.Error("demoting_due_to_health_check_failure",
@@ -271,5 +278,5 @@ func (e *kvElection) handleHealthCheckFailure() {
 		)...,
 	)
 
-	e.demote("health_check_failure")
+	e.demoteTerm(ctx, "health_check_failure")
 }
